@@ -1292,7 +1292,7 @@ pub struct PathSelectionContext<'a> {
 #[derive(Debug)]
 enum PathsSource<'a> {
     Live(&'a FxHashMap<ConnId, ConnectionState>),
-    #[cfg(test)]
+    #[cfg(any(test, iroh_verif))]
     Test(Vec<PathSelectionData<'a>>),
 }
 
@@ -1309,7 +1309,7 @@ impl<'a> PathSelectionContext<'a> {
     }
 
     /// Constructs a context with synthetic path data for testing.
-    #[cfg(test)]
+    #[cfg(any(test, iroh_verif))]
     pub(crate) fn for_test(
         current: Option<&'a transports::FourTuple>,
         paths: Vec<PathSelectionData<'a>>,
@@ -1341,7 +1341,7 @@ impl<'a> PathSelectionContext<'a> {
                         })
                     }),
             ),
-            #[cfg(test)]
+            #[cfg(any(test, iroh_verif))]
             PathsSource::Test(paths) => Box::new(paths.iter().cloned()),
         }
     }
@@ -1368,7 +1368,7 @@ enum StatsSource {
     },
     /// Boxed so `PathStats` (100+ bytes, 14 fields) doesn't inflate the enum's
     /// size in production where only the `Live` variant is ever constructed.
-    #[cfg(test)]
+    #[cfg(any(test, iroh_verif))]
     Test(Option<Box<PathStats>>),
 }
 
@@ -1389,7 +1389,7 @@ impl<'a> PathSelectionData<'a> {
     ///
     /// `PathStats` is `#[non_exhaustive]` so callers build it via
     /// `let mut s = PathStats::default(); s.rtt = ...;`.
-    #[cfg(test)]
+    #[cfg(any(test, iroh_verif))]
     pub(crate) fn for_test(
         network_path: &'a transports::FourTuple,
         stats: Option<PathStats>,
@@ -1409,7 +1409,7 @@ impl<'a> PathSelectionData<'a> {
     pub fn stats(&self) -> Option<PathStats> {
         match &self.source {
             StatsSource::Live { path_id, conn } => conn.path_stats(*path_id),
-            #[cfg(test)]
+            #[cfg(any(test, iroh_verif))]
             StatsSource::Test(stats) => stats.as_deref().copied(),
         }
     }
